@@ -6,6 +6,7 @@ import Mpir.Proto
 import Mpir.Model.MulAlgo
 import Mpir.Model.MulDispatch
 import Mpir.Model.FftParams
+import Mpir.Model.Toom8
 namespace Mpir.Ops.Mul
 open Mpir Mpir.MulAlgo
 
@@ -60,8 +61,14 @@ def handle : Handler
   | "mpn_toom4_sqr_n", [.vec u] => some (viaModel (toom4_mul_n (· * ·) (val u) (val u) u.length) u u)
   | "mpn_toom4_mul", [.vec u, .vec v] => some (viaModel (toom4_mul (· * ·) (val u) u.length (val v) v.length) u v)
   | "mpn_toom53_mul", [.vec u, .vec v] => some (viaModel (toom53_mul (· * ·) (val u) u.length (val v) v.length) u v)
-  | "mpn_toom8h_mul", [.vec u, .vec v] => some (prodVec u v)
-  | "mpn_toom8_sqr_n", [.vec u] => some (prodVec u u)
+  | "mpn_toom8h_mul", [.vec u, .vec v] =>
+      some (match Toom8.toom8h_mul (· * ·) (val u) u.length (val v) v.length with
+            | some m => viaModel m u v
+            | none => [.err "model"])
+  | "mpn_toom8_sqr_n", [.vec u] =>
+      some (match Toom8.toom8_sqr_n (fun x => x * x) (val u) u.length with
+            | some m => viaModel m u u
+            | none => [.err "model"])
   | "mpn_mul_fft_main", [.vec u, .vec v] => some (fftAnswer u v)
   | "mpn_mul_fft_main_same", [.vec u] => some (fftAnswer u u)
   | "mpn_mul_trunc_sqrt2", [.num same, .num _, .num _, .vec u, .vec v] => some (if same = 1 then prodVec u u else prodVec u v)
